@@ -876,3 +876,104 @@ def deep_law(n, cache_size, dt_hint, levy="none", K=None, backward=False, tol=2e
             fails.append(("seed_collision", dict(n=n, seeds=len(seeds), distinct=len(set(seeds)), depth=depth,
                                                  cache_size=cache_size, dt_hint=dt_hint)))
     return fails, info
+
+
+# ---------------------------------------------------------------------------------------
+# the work of ONE call (spec/BrownianWork.tla)
+# ---------------------------------------------------------------------------------------
+
+class WorkBound(RuntimeError):
+    """One public call split more tree nodes than the budget (a query needs a handful of splits)."""
+
+
+class split_budget:
+    """Counts the calls of _Interval._split_exact (every split creates two tree nodes) while active, and aborts the
+    running call with WorkBound once `cap` is exceeded.  A verdict by COUNT, not by time: a call that would create
+    10^7 nodes is stopped after `cap` of them whatever the speed of the machine."""
+
+    def __init__(self, cap=50000):
+        self.cap, self.count = cap, 0
+
+    def __enter__(self):
+        self.orig = _bi._Interval._split_exact
+        me, orig = self, self.orig
+
+        def counted(self_, *a, **k):
+            me.count += 1
+            if me.count > me.cap:
+                raise WorkBound(f"more than {me.cap} splits in one call")
+            return orig(self_, *a, **k)
+
+        _bi._Interval._split_exact = counted
+        return self
+
+    def __exit__(self, *exc):
+        _bi._Interval._split_exact = self.orig
+        return False
+
+
+def work_per_call(t1=1.0, cache_size=45, warm=(100, 2.0 ** -10), pre=(), query=(0.5, 0.5 + 2.0 ** -30), dt=None, tol=0.0,
+                  halfway=False, cap=50000, whole_warm=False):
+    """History: `warm[0]` consecutive queries of length warm[1] from t0 = 0 (whole_warm: the whole interval each time,
+    which splits nothing), the queries `pre`, then ONE query - whose number of splits is returned.
+    dict(outcome "ok" | "work_bound" | exception name, splits)."""
+    out = dict(outcome="ok", splits=0)
+    try:
+        with warnings.catch_warnings():
+            warnings.simplefilter("ignore")
+            kw = dict(t0=0.0, t1=t1, size=(1, 1), dtype=torch.float64, entropy=5, cache_size=cache_size, tol=tol,
+                      halfway_tree=halfway)
+            if dt is not None:
+                kw["dt"] = dt
+            with split_budget(cap) as sb0, B.cpu_watchdog():
+                bm = torchsde.BrownianInterval(**kw)
+                n, h = warm
+                for i in range(n):
+                    bm(0.0, t1) if whole_warm else bm(i * h, (i + 1) * h)
+                for (a, b) in pre:
+                    bm(a, b)
+            out["splits_before"] = sb0.count
+            with split_budget(cap) as sb:
+                try:
+                    with B.cpu_watchdog():
+                        bm(*query)
+                finally:
+                    out["splits"] = sb.count
+    except WorkBound:
+        out["outcome"] = "work_bound"
+    except RecursionError:
+        out["outcome"] = "RecursionError"
+    except Exception as e:  # noqa: BLE001
+        out["outcome"] = type(e).__name__
+        out["msg"] = str(e)[:200]
+    return out
+
+
+def sdeint_default_bm_work(ts, dt, cap=50000, **kw):
+    """sdeint with its default Brownian motion under a split budget for the WHOLE solve (construction included)."""
+    class _S:
+        noise_type, sde_type = "diagonal", "ito"
+
+        def f(self, t, y):
+            return -y
+
+        def g(self, t, y):
+            return 0.2 + 0.0 * y
+
+    out = dict(outcome="ok", splits=0)
+    with split_budget(cap) as sb:
+        try:
+            with warnings.catch_warnings(), B.cpu_watchdog(120.0):
+                warnings.simplefilter("ignore")
+                ys = torchsde.sdeint(_S(), torch.ones(1, 1, dtype=torch.float64), ts, dt=dt, **kw)
+            if not bool(torch.isfinite(ys).all()):
+                out["outcome"] = "non-finite"
+        except WorkBound:
+            out["outcome"] = "work_bound"
+        except RecursionError:
+            out["outcome"] = "RecursionError"
+        except Exception as e:  # noqa: BLE001
+            out["outcome"] = type(e).__name__
+            out["msg"] = str(e)[:200]
+        out["splits"] = sb.count
+    return out
